@@ -173,9 +173,10 @@ func hasBadDouble(v *refsem.Val) bool {
 }
 
 type root struct {
-	s     *idl.Struct
-	shape string
-	vals  []*refsem.Val
+	s       *idl.Struct
+	shape   string
+	vals    []*refsem.Val
+	nanVals []*refsem.Val
 }
 
 func main() {
@@ -226,6 +227,8 @@ func main() {
 		for _, v := range refsem.StructDomain(r.s, 2, true) {
 			if !hasBadDouble(v) {
 				r.vals = append(r.vals, v)
+			} else {
+				r.nanVals = append(r.nanVals, v) // only compared with themselves (the same object)
 			}
 		}
 	}
@@ -261,20 +264,29 @@ func main() {
 					ps = append(ps, pair{r, a, b, refEqStruct(r.s, a, b), "pair"})
 				}
 				ps = append(ps, pair{r, a, a.Clone(), true, "copy"})
+				ps = append(ps, pair{r, a, a, true, "self"})
 				ps = append(ps, pair{r, a, refsem.Nil(), false, "nil-arg"})
 				ps = append(ps, pair{r, refsem.Nil(), a, false, "nil-receiver"})
+			}
+			// reflexivity on the very same object, also when it holds NaN
+			for _, a := range r.nanVals {
+				ps = append(ps, pair{r, a, a, true, "self"})
 			}
 			ps = append(ps, pair{r, refsem.Nil(), refsem.Nil(), true, "nil-nil"})
 		}
 		var reqs []*gen.Req
 		for _, p := range ps {
-			reqs = append(reqs, &gen.Req{Type: gen.RegKey(it, p.r.s.Name), Op: "deepequal", Val: p.a, Val2: p.b})
+			q := &gen.Req{Type: gen.RegKey(it, p.r.s.Name), Op: "deepequal", Val: p.a, Val2: p.b}
+			if p.kind == "self" {
+				q.Args = "self"
+			}
+			reqs = append(reqs, q)
 		}
 		resps := ses.Do(reqs)
 		for i, rs := range resps {
 			p := ps[i]
 			differ := p.a.Key(false) != p.b.Key(false)
-			run.Eval(fmt.Sprintf("%d|%s|%s|%s|%s", ci, p.r.s.Name, p.kind, p.a.Key(false), p.b.Key(false)), differ || p.kind == "copy")
+			run.Eval(fmt.Sprintf("%d|%s|%s|%s|%s", ci, p.r.s.Name, p.kind, p.a.Key(false), p.b.Key(false)), differ || p.kind == "copy" || p.kind == "self")
 			if rs.Panic != "" {
 				viol("panic:"+p.kind+":"+p.r.shape, fmt.Sprintf("%s.DeepEqual panicked (%s): %s", p.r.s.Name, p.kind, firstLine(rs.Panic)), p.r, configs[ci], p.a, p.b)
 				continue
